@@ -143,6 +143,33 @@ def sig_c17_race(oracle, inp, ver):
     return oracle == "probe:dataRace" and "sio.(*TimerEntry).run" in r and "sio.(*Crew)." in r
 
 
+def race_probe(op, extra_env=None):
+    """A runner that executes one harness op in a -race build; every data race the detector reports
+    with a frame of Comcast/sheens is a failing input (the schedule is the detector's report)."""
+    def run(res, workdir, rseed, rargs, opts):
+        import subprocess, re
+        from checklib_main import build_go_race, HARNESS_RACE, GOENV
+        if not build_go_race(res.log):
+            res.oblige("harness:race-build", False, "go build -race failed (cgo/gcc needed)")
+            return False
+        env = dict(GOENV, GORACE="exitcode=66", GOMEMLIMIT="3GiB", **(extra_env or {}))
+        p = subprocess.run([HARNESS_RACE, op] + rargs, stdout=subprocess.DEVNULL, stderr=subprocess.PIPE, text=True, env=env, timeout=900)
+        blocks = [b for b in p.stderr.split("==================") if "WARNING: DATA RACE" in b]
+        res.evaluations += 1
+        res.feat["raceRun:" + op] += 1
+        for b in blocks:
+            frames = re.findall(r"^\s+(github.com/Comcast/sheens/\S+|main\.\S+)\(\)", b, flags=re.M)
+            if not any(f.startswith("github.com/Comcast/sheens/") for f in frames):
+                continue
+            short = "\n".join(l for l in b.strip().split("\n") if "sheens" in l or "DATA RACE" in l or "by goroutine" in l)[:3000]
+            res.failing.append(("probe:dataRace", {"race": short, "frames": sorted(set(frames)), "op": op + " -race", "args": rargs}, {"corr": True}))
+        if p.returncode not in (0, 66):
+            res.oblige("harness:race-run", False, p.stderr[-800:])
+            return False
+        return True
+    return run
+
+
 def c17_race_probe(res, workdir, rseed, rargs, opts):
     """Run the sio timer scenarios in a -race build (the harness drives ProcessMsg from one goroutine,
     as Crew.Loop does, and does not itself touch the timer table in this run); every reported data
@@ -504,15 +531,15 @@ PROPS = {
         "theorems": [],
         "facts": ["specter_atomic", "engine_writes_only_locals", "matcher_writes_only_locals_and_bindings", "core_no_hidden_state", "match_no_hidden_state"],
         "runs": {
-            "quick": [("concurrent", ["-n", "1500"])],
+            "quick": [("concurrent", ["-n", "1500"]), ("concurrent", ["-n", "60"], {"runner": race_probe("concurrent")})],
             "thorough": [("concurrent", ["-n", "4000"]), ("concurrent", ["-n", "600"], {"race": True})],
         },
         "analyze": analyze_generic,
         "oracles": [],
-        "probes": ["concurrentSameAsAlone", "specUntouched", "oneCompleteVersion", "noPanic"],
+        "probes": ["concurrentSameAsAlone", "specUntouched", "specObjectsKept", "oneCompleteVersion", "noPanic", "dataRace"],
         "rule": ("two random compiled specs; 8 distinct machine states walked over the same spec object from 24 goroutines and compared "
                  "with the result each obtains alone; the same walks through an UpdatableSpec that another goroutine keeps swapping between "
-                 "the two versions, each result compared with the results under either version.  (The race detector is not available to "
-                 "the quick tier; the thorough tier re-runs the probes in a -race build.)"),
+                 "the two versions, each result compared with the results under either version.  The same probes are re-run in a -race build (a small run in the "
+                 "quick tier, a larger one in the thorough tier); a reported race with a frame of the repository is a failing input."),
     },
 }
